@@ -1196,7 +1196,7 @@ func parseDurationSSA(i string) (time.Duration, error) {
 // WriteToSSA writes subtitles in .ssa format
 func (s Subtitles) WriteToSSA(o io.Writer) (err error) {
 	// Do not write anything if no subtitles
-	if len(s.Items) == 0 {
+	if s.Items = nonNilItems(s.Items); len(s.Items) == 0 {
 		err = ErrNoSubtitlesToWrite
 		return
 	}
